@@ -541,15 +541,33 @@ mod internal {
         fn backtrack_step_to_barrier(&mut self, αinit: T) -> T {
             let step = self.settings.core().linesearch_backtrack_step;
             let mut α = αinit;
+            #[cfg(clarabel_verif)]
+            let mut verif_answers: Vec<bool> = vec![];
 
             for _ in 0..50 {
                 let barrier = self.variables.barrier(&self.step_lhs, α, &mut self.cones);
+                #[cfg(clarabel_verif)]
+                verif_answers.push(barrier < T::one());
                 if barrier < T::one() {
+                    #[cfg(clarabel_verif)]
+                    crate::verif_hooks::trace::observe(crate::verif_hooks::trace::Event::BarrierBt {
+                        alpha_init: crate::verif_hooks::trace::f(αinit),
+                        step: crate::verif_hooks::trace::f(step),
+                        answers: verif_answers,
+                        alpha_out: crate::verif_hooks::trace::f(α),
+                    });
                     return α;
                 } else {
                     α = step * α;
                 }
             }
+            #[cfg(clarabel_verif)]
+            crate::verif_hooks::trace::observe(crate::verif_hooks::trace::Event::BarrierBt {
+                alpha_init: crate::verif_hooks::trace::f(αinit),
+                step: crate::verif_hooks::trace::f(step),
+                answers: verif_answers,
+                alpha_out: crate::verif_hooks::trace::f(α),
+            });
             α
         }
 
